@@ -101,8 +101,9 @@ EmailConforms(o, m, tld, s) ==
   /\ (r.rc >= 0 => fl # 0)
 
 ----------------------------------------------------------------------------
-(* replay vector of one address: [5, optbits, n, bytes.., at, c12, then for tld in (off, on), for mode in
-   (822, 5321, 5322, 6531): exp, erc, eflag, model rc, model flags] *)
+(* replay vector of one address: [5, optbits, n, bytes.., at, c12, le for mode in (822, 5321, 5322, 6531) = what layer P
+   says of the local part alone (1 valid, 0 invalid, 2 not pinned; 1 when there is none to speak of), then for tld in
+   (off, on), for mode in (822, 5321, 5322, 6531): exp, erc, eflag, model rc, model flags] *)
 ModeSeq4 == <<RFC822, RFC5321, RFC5322, RFC6531>>
 FlagsOf(r) == (IF r.v4 THEN 1 ELSE 0) + (IF r.v6 THEN 2 ELSE 0) + (IF r.dom THEN 4 ELSE 0)
 \* C12: pure-ASCII address whose local part has neither DQUOTE nor backslash
@@ -112,7 +113,8 @@ EmailVec(ob, o, s) ==
   LET D == IF AtPos(s) \in 1..(Len(s) - 1) THEN DPart(s) ELSE <<>>
       one(tld, m) == LET p == EmailP(o, m, tld, s)  r == EmailM(o, m, tld, ConvAscii(D), s) IN
                      <<p.exp, p.erc, p.eflag, r.rc, FlagsOf(r)>>
-  IN <<5, ob, Len(s)>> \o s \o <<AtPos(s), IF C12Addr(o, s) THEN 1 ELSE 0>> \o
+      le(m) == IF AtPos(s) \in 2..65 THEN LocalExp(o, m, LPart(s)) ELSE 1
+  IN <<5, ob, Len(s)>> \o s \o <<AtPos(s), IF C12Addr(o, s) THEN 1 ELSE 0>> \o [j \in 1..4 |-> le(ModeSeq4[j])] \o
      Concat([j \in 1..8 |-> one(j > 4, ModeSeq4[((j - 1) % 4) + 1])])
 EmailAllConform(o, s) == \A m \in Modes : \A tld \in BOOLEAN : EmailConforms(o, m, tld, s)
 =============================================================================
